@@ -1,6 +1,8 @@
 import HedVerif.Driver.Util
 import HedVerif.Driver.Store
 import HedVerif.Model.Group
+import HedVerif.Model.GroupValidate
+import HedVerif.Driver.C01
 import Std.Data.HashMap
 open Lean
 namespace HedVerif.Driver.C13
@@ -85,8 +87,46 @@ def source (j : Json) : Except String Source := do
   let flags := lib.foldl (fun a i => if i < a.size then a.set! i true else a) flags
   pure ⟨ws, tags.zip flags.toList⟩
 
+def optBool (j : Json) (k : String) : Option Bool :=
+  match j.getObjVal? k with
+  | .ok (Json.bool b) => some b
+  | _ => none
+
+/-- one member: the `c01.run` environment fields + `ws83`/`std83`/`ed` -/
+def vmember (j : Json) : Except String GroupValidate.VMember := do
+  let env ← C01.envOf j
+  pure ⟨env, optBool j "ws83", optBool j "std83", getBoolD j "ed" false⟩
+
+def chosen (g : GroupValidate.VGroup) (text : Str) : Option GroupValidate.VMember :=
+  match GroupValidate.speaking g text with
+  | [] => g.head?
+  | [p] => GroupValidate.member g p
+  | _ => none
+
+def vcase (g : GroupValidate.VGroup) (j : Json) : Except String Json := do
+  let text ← getStr j "text"
+  let ph ← getBool j "ph"
+  match chosen g text, GroupValidate.validate g ph text with
+  | some m, some issues =>
+    let env := GroupValidate.view g m
+    let pr := Validate.parse env text
+    pure (jobj [("issues", jarr (issues.map C01.issueJson)), ("member", jstr m.env.ns),
+                ("raises", jbool (GroupValidate.raisesFor g m ph text)),
+                ("unmodelled", jbool (Validate.unmodelledP env pr)),
+                -- conclusion of `group_validate_eq_single`, evaluated
+                ("eq_single", jbool (issues == Validate.validate m.env ph text)),
+                ("hmod", jbool (GroupValidate.groupModern g == m.env.modern)),
+                ("hreq", jbool (GroupValidate.otherNames g m.env.ns (·.required)).isEmpty)])
+  | _, _ => pure (jobj [("mixed", jbool true), ("speaking", jarr ((GroupValidate.speaking g text).map jstr))])
+
 def handle (op : String) (j : Json) : Option (Except String Json) :=
   match op with
+  | "c13.validate" => some do
+      let g ← (← getArr j "members").mapM vmember
+      let answers ← (← getArr j "cases").mapM (vcase g)
+      pure (jobj [("answers", jarr answers), ("group_modern", jbool (GroupValidate.groupModern g)),
+                  ("alone_modern", jarr (g.map fun m => jbool (GroupValidate.aloneModern m))),
+                  ("dups", jarr (g.map fun m => jarr (m.env.vocab.dups.map jnat)))])
   | "c13.load" => some do
       let first ← source (← getVal j "first")
       let rest ← (← getArr j "rest").mapM source
